@@ -53,6 +53,11 @@ let handle cmd args : string option =
       Some (Printf.sprintf "%s %s %s %s" (b01 (is_null s)) (b01 (is_text_field s))
               (match as_string s with Some r -> hx r | None -> "EXC") (hx (quote s)))
     | _ -> None)
+  | "lex" -> (match w with
+    | [b; h] -> Some (match lex_value (b <> "0") (unhx h) with
+                      | LexOk (tok, _) -> Printf.sprintf "OK %d" (List.length tok)
+                      | LexNo -> "NO" | LexErr -> "ERR")
+    | _ -> None)
   | "write" ->
     let (o, rest) = opts_of w in
     let d = read_dom rest in
